@@ -1,6 +1,131 @@
 import TantivyModel.Driver.Proto
+import TantivyModel.Model.DocSet.Tree
+/-!
+Line protocol of the C13 model.
+
+* `C13 run <tree> <prog>`  — build the scorer tree (nesting depth ≤ 3 over vector leaves) and run
+  the call program on the implementation-level model; one result per call, `;`-separated.
+* `C13 spec <docs> <prog>` — run the same program on the specification cursor over `docs`.
+* `C13 consts`             — the extracted constants the model was built with.
+
+tree (prefix notation, tokens separated by `;`):
+  `v;<docs>;<score>` | `bu;<sum 0/1>;<n>;T1..Tn` | `su;<n>;T1..Tn` | `in;<dense 0/1>;<n>;T1..Tn`
+  | `ex;<n>;U;E1..En` | `ro;<sum 0/1>;REQ;OPT`
+prog (`;`-separated): `d` doc | `a` advance | `s<t>` seek | `k<t>` seek_danger | `f` fill_buffer
+  | `b<m>` fill_bitset_block | `c` count_including_deleted | `x` score
+results: `<doc>` for d/a/s | `F` / `L<bound>` for k | `f:<docs>` | `b:<docs>:<next>` | `c:<n>` | `x:<n>`
+-/
 namespace TantivyModel.Driver.C13
-/-- stub: the model for C13 is not built yet -/
+open TantivyModel TantivyModel.Proto TantivyModel.DocSet
+
+def parseTree : Nat → List String → Option (Tree × List String)
+  | 0, _ => none
+  | fuel + 1, toks =>
+    let rec many (k : Nat) (toks : List String) (acc : List Tree) : Option (List Tree × List String) :=
+      match k with
+      | 0 => some (acc.reverse, toks)
+      | k + 1 =>
+        match parseTree fuel toks with
+        | some (t, rest) => many k rest (t :: acc)
+        | none => none
+    match toks with
+    | "v" :: docs :: sc :: rest =>
+      match natList docs, sc.toNat? with
+      | some l, some s => some (.vec l s, rest)
+      | _, _ => none
+    | "bu" :: sum :: n :: rest =>
+      match sum.toNat?, n.toNat? with
+      | some sm, some k => (many k rest []).map (fun (cs, r) => (.bunion (sm == 1) cs, r))
+      | _, _ => none
+    | "su" :: n :: rest =>
+      match n.toNat? with
+      | some k => (many k rest []).map (fun (cs, r) => (.sunion cs, r))
+      | none => none
+    | "in" :: dense :: n :: rest =>
+      match dense.toNat?, n.toNat? with
+      | some dn, some k => (many k rest []).map (fun (cs, r) => (.inter (dn == 1) cs, r))
+      | _, _ => none
+    | "ex" :: n :: rest =>
+      match n.toNat? with
+      | some k =>
+        match parseTree fuel rest with
+        | some (u, rest') => (many k rest' []).map (fun (es, r) => (.excl u es, r))
+        | none => none
+      | none => none
+    | "ro" :: sum :: rest =>
+      match sum.toNat? with
+      | some sm =>
+        match parseTree fuel rest with
+        | some (rq, rest') =>
+          match parseTree fuel rest' with
+          | some (op, rest'') => some (.reqopt (sm == 1) rq op, rest'')
+          | none => none
+        | none => none
+      | none => none
+    | _ => none
+
+inductive Call where
+  | op (o : Op)
+  | score
+
+def parseCall (s : String) : Option Call :=
+  match s.toList with
+  | ['d'] => some (.op .doc)
+  | ['a'] => some (.op .advance)
+  | ['f'] => some (.op .fillBuffer)
+  | ['c'] => some (.op .count)
+  | ['x'] => some .score
+  | 's' :: r => (String.ofList r).toNat?.map (fun t => .op (.seek t))
+  | 'k' :: r => (String.ofList r).toNat?.map (fun t => .op (.seekDanger t))
+  | 'b' :: r => (String.ofList r).toNat?.map (fun t => .op (.fillBitset t))
+  | _ => none
+
+def runCalls (D : DS σ) : σ → List Call → List String
+  | _, [] => []
+  | s, .score :: rest => let r := D.score s; ("x:" ++ toString r.1) :: runCalls D r.2 rest
+  | s, .op .doc :: rest => toString (D.doc s) :: runCalls D s rest
+  | s, .op .advance :: rest => let s' := D.advance s; toString (D.doc s') :: runCalls D s' rest
+  | s, .op (.seek t) :: rest => let s' := D.seek t s; toString (D.doc s') :: runCalls D s' rest
+  | s, .op (.seekDanger t) :: rest =>
+    match D.seekDanger t s with
+    | (.found, s') => "F" :: runCalls D s' rest
+    | (.lower b, s') => ("L" ++ toString b) :: runCalls D s' rest
+  | s, .op .fillBuffer :: rest =>
+    let r := D.fillBuffer s; ("f:" ++ showNatList r.1) :: runCalls D r.2 rest
+  | s, .op (.fillBitset m) :: rest =>
+    let r := D.fillBitset m s
+    ("b:" ++ showNatList r.1.1 ++ ":" ++ toString r.1.2) :: runCalls D r.2 rest
+  | s, .op .count :: rest => let r := D.count s; ("c:" ++ toString r.1) :: runCalls D r.2 rest
+
+/-- the specification cursor as an implementation (state = remaining documents) -/
+def specDS : DS (List Nat) where
+  doc := Spec.doc
+  advance := Spec.advance
+  seek := Spec.seek
+  seekDanger := fun t l =>
+    if t ∈ l then (.found, Spec.seek t l) else (.lower (Spec.doc (Spec.seek t l)), Spec.seek t l)
+  fillBuffer := Spec.fillBuffer
+  fillBitset := fun m l => (((Spec.fillBitset m l).1, Spec.doc (Spec.fillBitset m l).2), (Spec.fillBitset m l).2)
+  count := fun l => (Spec.count l, [])
+  score := fun l => (0, l)
+
+def parseProg (s : String) : Option (List Call) :=
+  if s == "-" then some [] else (s.splitOn ";").mapM parseCall
+
 def handle : List String → String
+  | ["run", tree, prog] =>
+    match parseTree 64 (tree.splitOn ";"), parseProg prog with
+    | some (t, []), some calls =>
+      match buildTree 3 t with
+      | some s => ";".intercalate (runCalls (levelDS 3) s calls)
+      | none => "bad-op"
+    | _, _ => "bad-op"
+  | ["spec", docs, prog] =>
+    match natList docs, parseProg prog with
+    | some l, some calls => ";".intercalate (runCalls specDS l calls)
+    | _, _ => "bad-op"
+  | ["consts"] =>
+    s!"TERMINATED={TERMINATED} BUFLEN={BUFLEN} BLOCK_WINDOW={BLOCK_WINDOW} HORIZON={Comb.H} NB={BUnion.NB Comb.H}"
   | _ => "bad-op"
+
 end TantivyModel.Driver.C13
